@@ -175,8 +175,9 @@ def run(ctx):
         for cycle, cpl in (('V', 1), ('W', 1), ('F', 1), ('F', 2)):
             if nlev == 1 and cycle != 'V':
                 continue
-            for variant in ('plain', 'col', 'x0', 'alias', 'zero-rhs', 'zero-rhs-no-x0', 'prefill', 'tiny-rhs', 'huge-rhs'):
-                if not ctx.thorough and not ctx.search and rng.random() < 0.45 and variant not in ('plain', 'zero-rhs', 'zero-rhs-no-x0', 'tiny-rhs'):
+            for variant in ('plain', 'col', 'x0', 'alias', 'zero-rhs', 'zero-rhs-no-x0', 'prefill', 'tiny-rhs', 'huge-rhs',
+                            'x0-converged', 'x0-converged-prefill', 'mixed-dtype', 'b-vec-x0-col', 'b-col-x0-vec'):
+                if not ctx.thorough and not ctx.search and rng.random() < 0.45 and variant not in ('plain', 'zero-rhs', 'zero-rhs-no-x0', 'tiny-rhs', 'x0-converged'):
                     continue
                 b = np.array([rng.uniform(-1, 1) for _ in range(n)])
                 if cplx:
@@ -197,6 +198,23 @@ def run(ctx):
                     b = b * 2.0 ** -40       # ||b|| ~ 1e-12 is NOT zero: the tolerance stays relative to it
                 elif variant == 'huge-rhs':
                     b = b * 2.0 ** 40
+                elif variant in ('x0-converged', 'x0-converged-prefill'):
+                    # a guess that already meets every tolerance used below: one cycle is still run and recorded
+                    x0 = np.linalg.solve(hier.dense_of(ml.levels[0].A), b)
+                elif variant == 'mixed-dtype':
+                    # the guess keeps all its digits whatever the type of b: complex hierarchy / real b / complex guess,
+                    # real hierarchy / integer b / float guess
+                    if cplx:
+                        b = np.real(b).copy()
+                        x0 = np.array([rng.uniform(-1, 1) + 1j * rng.uniform(-1, 1) for _ in range(n)])
+                    else:
+                        b = np.round(4 * b).astype(np.int64)
+                        x0 = np.array([rng.uniform(-1, 1) for _ in range(n)])
+                elif variant == 'b-vec-x0-col':
+                    x0 = np.array([rng.uniform(-1, 1) for _ in range(n)]).reshape(-1, 1)
+                elif variant == 'b-col-x0-vec':
+                    b = b.reshape(-1, 1)
+                    x0 = np.array([rng.uniform(-1, 1) for _ in range(n)])
                 base = dict(builder=bname, matrix=mname, cycle=cycle, cpl=cpl, variant=variant,
                             b=b.tolist() if not cplx else [[v.real, v.imag] for v in np.ravel(b)],
                             x0=None if x0 is None else np.ravel(x0).real.tolist())
@@ -232,12 +250,14 @@ def run(ctx):
                     rng.shuffle(plans)
                     keep = [p for p in plans if p[2] == 'tie'][:2] + [p for p in plans if p[2] != 'tie'][:4]
                     plans = keep
+                if variant.startswith('x0-converged'):
+                    plans = list(plans) + [(1e-6, 3, 'wide'), (1e-3, 1, 'below')]
                 for tol, mi, tag in plans:
                     case = dict(base, tol=tol, maxiter=mi, tag=tag)
                     ctx.mark(case)
                     try:
                         x, st, res, cbs, unchanged = one_solve(ml, A, b, x0, tol, mi, cycle, cpl,
-                                                               prefill=(variant == 'prefill'))
+                                                               prefill=(variant in ('prefill', 'x0-converged-prefill')))
                     except Exception as e:   # noqa
                         ctx.fail('solve/raises', 'solve raised %r' % (e,), case)
                         continue
